@@ -529,7 +529,42 @@ def run_sched_engine(ctx, spec):
                     ctx.other.append({"concerns": ["C10", "C18"], "what": "latch protocol mismatch", "origin": org[:120]})
 
 
-ENGINES = {"hist": run_hist_engine, "alloc": run_alloc_engine, "codec": run_codec_engine, "sched": run_sched_engine}
+def run_persist_engine(ctx, spec):
+    """trunc (C13) and fault (C14): fault enumeration on the real snapshot / log code"""
+    kind = spec["kind"]
+    n = spec["quick"] if ctx.tier == "quick" else spec["thorough"]
+    out = os.path.join(CACHE, "run", f"{ctx.pid}_{kind}")
+    if os.path.exists(out):
+        shutil.rmtree(out)
+    cmd = [os.path.join(CACHE, "harness"), kind, "--seed", str(ctx.seed), "--n", str(n), "--out", out]
+    if ctx.tier == "thorough":
+        cmd.append("--every-byte" if kind == "trunc" else "--every")
+    t0 = time.time()
+    vlib.sh(cmd, timeout=6000)
+    s = json.load(open(os.path.join(out, "summary.json")))
+    ctx.checker_cmds.append(" ".join(cmd[:1] + cmd[1:]).replace(CACHE, ".cache"))
+    cov = ctx.coverage
+    total = s["cuts"] + s.get("log_cuts", 0)
+    cov["evaluations"] += total
+    cov["distinct_nontrivial"] += total
+    cov["exhaustive"] = bool(s.get("exhaustive"))
+    cov.setdefault("engines", []).append({k: s[k] for k in s if k not in ("failures", "samples")} | {"wall_s": round(time.time() - t0, 1)})
+    cov["samples"] += [{"engine": kind, "case": x} for x in (s.get("samples") or [])[:2]]
+    for f in (s.get("failures") or [])[:6]:
+        ctx.violation(kind, f, data={"engine": kind, "seed": ctx.seed, "failure": f})
+    sc = os.path.join(out, "snap_cases.v")
+    if os.path.exists(sc):
+        p = subprocess.run(["timeout", "600", "coqc", "-Q", COQ, "ColumnV", sc], cwd=out, stdout=subprocess.PIPE, stderr=subprocess.STDOUT, text=True)
+        m = re.search(r"M\s*=\s*\[(.*?)\]\s*:\s*list", p.stdout, re.S)
+        if p.returncode != 0 or not m:
+            ctx.violation("correspondence", "Snap.v could not be evaluated on the recorded fault plans: " + p.stdout[-1200:], found_input=False)
+        elif m.group(1).strip():
+            ctx.violation("correspondence", "Snapshot's outcome differs from the state machine of Snap.v on fault plans " + m.group(1)[:200],
+                          data={"engine": kind, "seed": ctx.seed, "plans": m.group(1)[:200]})
+        ctx.checker_cmds.append("coqc snap_cases.v   # Snap.v snapshot state machine vs observed (failed, error, recorder)")
+
+
+ENGINES = {"hist": run_hist_engine, "persist": run_persist_engine, "alloc": run_alloc_engine, "codec": run_codec_engine, "sched": run_sched_engine}
 S = lambda scen, q, t, **kw: dict(engine="sched", scenarios=scen, quick=q, thorough=t, **kw)
 
 H = lambda profile, q, t, **kw: dict(engine="hist", profile=profile, quick=q, thorough=t, **kw)
@@ -559,6 +594,11 @@ PROPS = {
                 rule="insert/delete heavy histories; non-trivial = >=3 inserts with a delete or offset reuse"),
     "C12": dict(engines=[H("keys", 70, 900)],
                 rule="keyed histories over a 6-key alphabet; non-trivial = >=3 key operations"),
+    "C13": dict(engines=[dict(engine="persist", kind="trunc", quick=8, thorough=40)],
+                level_text="theorems about the prefix-safe parsers and the log / restore prefix property (Wire.v, every prefix, no bound) + fault enumeration on the implementation: every sampled prefix (every byte in the thorough tier) of real snapshot and log files is restored; s2 framing is trusted",
+                rule="snapshot files (random history, 0-3 transactions committed during the snapshot) and commit-log files cut at: the first 24 bytes, the state/log boundary +-6, the last 200 bytes, 120 random offsets (every offset in the thorough tier); every cut is a distinct case"),
+    "C14": dict(engines=[dict(engine="persist", kind="fault", quick=3, thorough=9)],
+                rule="destination writers failing at a chosen call index or byte budget, once or forever, on empty / single-block / multi-block collections, with a transaction committing during the snapshot; every plan is a distinct case"),
     "C15": dict(engines=[H("mix", 60, 800), H("atomic", 30, 300), S("rows", 150, 3000, dfs_thorough=4000)],
                 rule="histories with a recording logger: emitted commits (decoded per block) compared with the model's stream, ids checked to be distinct, non-zero and increasing per block; non-trivial = >=2 emitted commits with an abort or a multi-block transaction"),
     "C16": dict(engines=[H("sorted", 60, 800)],
